@@ -27,6 +27,39 @@ def nul_program(rng):
     return {'csize': 256, 'caseins': False, 'scs': [], 'rules': rules}
 
 
+def nul_template_program(rng):
+    """Loops over wide classes that contain NUL next to rules with negated classes: with meta-equivalence classes but
+    no equivalence classes (-Cm) NUL is class 256 and has to find its way into the templates of the compressed table."""
+    g = patgen.Gen(rng, csize=256, alphabet=[0, 32, 48, 65, 97, 98, 255], max_depth=2)
+    sep = rng.pick([32, 48, 97, 10])
+    items = [('rg', 0, rng.rng(1, 120))]
+    for _ in range(rng.rng(0, 2)):
+        lo = rng.rng(60, 250)
+        items.append(('rg', lo, min(255, lo + rng.rng(0, 20))))
+    body = ('cat', ('cls', ('set', False, items)), ('c', sep))
+    if rng.chance(30):
+        body = ('cat', ('c', sep), ('cls', ('set', False, items)))
+    loop = ('plus', body)
+    if rng.chance(40):
+        loop = ('plus', loop)
+    if rng.chance(30):
+        loop = ('reprange', body, 1, rng.rng(2, 4))
+    rules = [{'head': loop, 'bol': False, 'scs': None, 'trail': None}]
+    for _ in range(rng.rng(1, 4)):
+        if rng.chance(50):
+            neg = ('cls', ('set', True, g.items()))
+            h = ('cat', neg, g.pat(1)) if rng.chance(60) else ('alt', ('c', rng.pick([98, 99, 0])), ('cat', neg, g.pat(1)))
+        else:
+            h = g.pat()
+        tries = 0
+        while patgen.nullable(h) and tries < 6:
+            h = g.pat()
+            tries += 1
+        rules.append({'head': h, 'bol': rng.chance(15), 'scs': None, 'trail': None})
+    rules = rng.shuffle(rules)
+    return {'csize': 256, 'caseins': False, 'scs': [], 'rules': rules}
+
+
 def nul_inputs(prog, rng, count):
     outs = rulesets.gen_inputs(prog, rng, count=count, maxlen=rng.pick([40, 120]))
     res = []
@@ -56,6 +89,9 @@ def build_cases(rng, tier):
         if be == 'cxx' and any("F" in o for o in opts):
             opts = ["-Cf"]
         prog = nul_program(r)
+        if i % 4 == 3:
+            prog = nul_template_program(r)
+            opts = list(r.pick([["-Cm"], ["-Cm"], ["-Cam"], ["-Cm", "-B"], ["-Cm", "-I"], ["-Cem"], ["-C"]]))
         c = engine.make_case("n%d" % i, r, prog=prog, flex_opts=opts + ["-8"], backend=be,
                              extra_options=(["array"] if r.chance(20) else []))
         c['inputs'] = nul_inputs(prog, r.fork("in"), 4)
@@ -94,7 +130,8 @@ def seven_bit_refusals(ck, flex, scratch, cases, results, stats):
 def main(tier):
     return engine.standard_main(
         PROP, tier, "Properties_C04.v", build_cases,
-        "rule sets that mention NUL / bytes >= 0x80 (65%) or do not (35%) x every table representation x batch/interactive x back end x "
+        "rule sets that mention NUL / bytes >= 0x80 (65%) or do not (35%), plus loops over wide classes containing NUL under -Cm/-Cam "
+        "(NUL as meta-equivalence class 256) x every table representation x batch/interactive x back end x "
         "%array x buffer sizes 1..16 (so NULs fall on refill boundaries, token ends and back-ups); inputs sprinkled with NULs incl. first "
         "and last byte; lock-step over the full 256-byte alphabet + proved validator on real token streams; -7 refusals probed; "
         "non-trivial = DFA >= 3 states and >= 2 rules matched",
